@@ -144,7 +144,7 @@ pub fn composite_case(threads: bool, h: &[Hop]) -> Result<(Vec<(String, String)>
 
 pub fn run(cfg: &Cfg, rep: &mut Report) {
   // (a) direct histories on the composite subscriptions
-  let total_h = cfg.n(40_000, 8_000_000);
+  let total_h = cfg.n(150_000, 8_000_000);
   let mut rng = Rng::new(cfg.seed ^ 0xC17);
   for i in 0..total_h {
     let mut r = rng.fork();
@@ -186,7 +186,7 @@ pub fn run(cfg: &Cfg, rep: &mut Report) {
     }
   }
   // (b) is_closed() sampled after every step of random pipelines
-  let total = cfg.n(80_000, 15_000_000);
+  let total = cfg.n(300_000, 15_000_000);
   let mut gcfg = GenCfg::full(cfg.n(3, 5), cfg.n(8, 14));
   gcfg.sched_pct = 35;
   gcfg.spies = false;
